@@ -20,17 +20,16 @@ package bfe_http
 
 import (
 	"io"
-	"io/ioutil"
-	"strings"
 )
 
 // EofReader is a non-nil io.ReadCloser that always returns EOF.
-// It embeds a *strings.Reader so it still has a WriteTo method
-// and io.Copy won't need a buffer.
-var EofReader = &struct {
-	*strings.Reader
-	io.Closer
-}{
-	strings.NewReader(""),
-	ioutil.NopCloser(nil),
-}
+// It has a WriteTo method so io.Copy won't need a buffer. It is shared by all
+// requests and responses without a body, so it must not have any state
+// (a *strings.Reader writes to itself in WriteTo).
+var EofReader = eofReader{}
+
+type eofReader struct{}
+
+func (eofReader) Read([]byte) (int, error)         { return 0, io.EOF }
+func (eofReader) Close() error                     { return nil }
+func (eofReader) WriteTo(io.Writer) (int64, error) { return 0, nil }
